@@ -11,7 +11,7 @@ import (
 func init() {
 	register(&propDef{
 		ID:          "C18",
-		Explanation: "Decides, for package lsp/jsonrpc2 (every function; go/cfg locksets and dominance, type-resolved): R1 every call of the Stream interface's Write holds one and the same write mutex of the connection (so whole frames are serialised) and all senders go through that one function; R2 in the framed stream's Write the length printed in the header is len() of the very byte slice passed to the following Write on the connection, with the Content-Length name and the blank-line separator as constants and no arithmetic on the length; R3 in the framed stream's Read the body buffer is make([]byte, length) with length parsed from the header, filled by io.ReadFull, on paths where length ≤ 0 and a missing header were rejected, and the header-line slice expressions are dominated by the `colon < 0` rejection; R4 in Call the reply channel is registered in the pending map (under its mutex) before the request is sent, has capacity ≥ 1, its removal is deferred, every access to the pending map holds its mutex, and the reader delivers a response only to the channel looked up by the response's own id; R5 the wait in Call selects on the reply and on ctx.Done(). NOT decided: all chunkings / schedules, JSON decoding of bodies.",
+		Explanation: "Decides, for package lsp/jsonrpc2 (every function; go/cfg locksets and dominance, type-resolved): R1 every call of the Stream interface's Write holds one and the same write mutex of the connection (so whole frames are serialised) and all senders go through that one function; R2 in the framed stream's Write the length printed in the header is len() of the very byte slice passed to the following Write on the connection, with the Content-Length name and the blank-line separator as constants and no arithmetic on the length; R3 in the framed stream's Read the body buffer is make([]byte, length) with length parsed from the header, filled by io.ReadFull, on paths where length ≤ 0 and a missing header were rejected, and the header-line slice expressions are dominated by the `colon < 0` rejection; R4 in Call the reply channel is registered in the pending map (under its mutex) before the request is sent, has capacity ≥ 1, its removal is deferred, every access to the pending map holds its mutex, and the reader delivers a response only to the channel looked up by the response's own id; R5 the wait in Call selects on the reply and on ctx.Done(); also R3 the announced length has an upper bound before it sizes the allocation (a parse of at most 32 bits, or an explicit maximum test that dominates make), R4 the reply channel is made by the call itself (never recycled), and R6 DecodeMessage rejects no frame on a wire field that is optional (omitempty) and that this package's own encoder can leave null. NOT decided: all chunkings / schedules, JSON decoding of bodies.",
 		Assumptions: []string{"io.ReadFull returns an error unless exactly len(buf) bytes were read", "sync.Mutex provides mutual exclusion"},
 		Trusted:     []string{"go/types", "x/tools go/packages, go/cfg"},
 		Run:         runC18,
@@ -20,6 +20,7 @@ func init() {
 
 func runC18(c *Ctx) {
 	c.load("./lsp/jsonrpc2")
+	decoderNotStricterThanEncoder(c, "C18.R6")
 	p := c.pkg("lsp/jsonrpc2")
 	info := p.TypesInfo
 	bodies := funcBodies(p)
@@ -227,6 +228,29 @@ func runC18(c *Ctx) {
 				return true
 			})
 			c.check(parsed, "C18.R3", key+"|length-parsed-from-header", c.pos(fd.Pos()), "length comes from strconv parsing of the header value", "the body length is no longer parsed from the header value")
+			// the announced length has an upper bound before it sizes an allocation: a 32-bit parse, or an explicit test
+			bounded := ""
+			ast.Inspect(fd.Body, func(n ast.Node) bool {
+				switch n := n.(type) {
+				case *ast.CallExpr:
+					if fn := calleeOf(info, n); fn != nil && (fullName(fn) == "strconv.ParseInt" || fullName(fn) == "strconv.ParseUint") && len(n.Args) == 3 {
+						if v, ok := constInt(info, n.Args[2]); ok && v > 0 && v <= 32 {
+							bounded = fmt.Sprintf("parsed with bitSize %d", v)
+						}
+					}
+				case *ast.IfStmt:
+					if be, ok := n.Cond.(*ast.BinaryExpr); ok && (be.Op == token.GTR || be.Op == token.GEQ) {
+						if id, ok := be.X.(*ast.Ident); ok && info.ObjectOf(id) == lenObj && mk != nil && fc.dominates(n, mk) && len(n.Body.List) > 0 {
+							if _, isRet := n.Body.List[len(n.Body.List)-1].(*ast.ReturnStmt); isRet {
+								bounded = "explicit upper bound " + types.ExprString(n.Cond)
+							}
+						}
+					}
+				}
+				return true
+			})
+			c.check(bounded != "", "C18.R3", key+"|length-has-upper-bound", c.pos(fd.Pos()), "the announced length is bounded: "+bounded,
+				"the Content-Length value is parsed without an upper bound (64-bit parse, no maximum test) and sizes make([]byte, length) directly: a header such as Content-Length: 9223372036854775807 panics the reader (makeslice: len out of range) instead of producing an error")
 			// a rejection of length == 0 (missing header) must dominate make; a rejection of negative length must exist
 			domZero, neg := false, false
 			for _, gd := range guards {
@@ -386,13 +410,18 @@ func runC18(c *Ctx) {
 			chObj = info.ObjectOf(id)
 		}
 		capOK := false
+		origin := ""
 		ast.Inspect(fd.Body, func(n ast.Node) bool {
 			if as, ok := n.(*ast.AssignStmt); ok && len(as.Lhs) == 1 && len(as.Rhs) == 1 {
 				if lid, ok := as.Lhs[0].(*ast.Ident); ok && info.ObjectOf(lid) == chObj {
+					origin = types.ExprString(as.Rhs[0])
 					if call, ok := as.Rhs[0].(*ast.CallExpr); ok {
-						if id, ok := call.Fun.(*ast.Ident); ok && id.Name == "make" && len(call.Args) == 2 {
-							if v, ok := constInt(info, call.Args[1]); ok && v >= 1 {
-								capOK = true
+						if id, ok := call.Fun.(*ast.Ident); ok && id.Name == "make" {
+							origin = "make"
+							if len(call.Args) == 2 {
+								if v, ok := constInt(info, call.Args[1]); ok && v >= 1 {
+									capOK = true
+								}
 							}
 						}
 					}
@@ -400,6 +429,11 @@ func runC18(c *Ctx) {
 			}
 			return true
 		})
+		c.check(origin == "make", "C18.R4", key+"|reply-channel-fresh-per-call", c.pos(fd.Pos()), "the reply channel is made by this call",
+			"the reply channel registered for a call is not allocated by that call (it comes from `"+origin+"`): a response that arrives after the caller gave up stays in the recycled channel and is handed to a later call, which returns another request's result")
+		if origin != "make" {
+			capOK = true // capacity is judged on a channel this function makes; the finding above is the report
+		}
 		c.check(capOK, "C18.R4", key+"|reply-channel-buffered", c.pos(fd.Pos()), "reply channel has constant capacity ≥ 1",
 			"the reply channel is unbuffered: a response arriving after the caller was cancelled blocks the connection's reader forever")
 		// deferred removal
@@ -603,4 +637,67 @@ func inLoopUse(info *types.Info, fd *ast.FuncDecl, mk *ast.CallExpr) bool {
 		return true
 	})
 	return found
+}
+
+// decoderNotStricterThanEncoder: C18.R6 — the message decoder rejects a frame only for reasons that the encoder can
+// never produce. Fields that the wire structs mark `omitempty` (params, result, error) may be absent or null in
+// frames this very package writes (a nil result is written as "result":null and decodes to a nil pointer), so a
+// rejection that tests one of them for nil makes the reader unable to read the writer's own output.
+func decoderNotStricterThanEncoder(c *Ctx, rule string) {
+	p := c.pkg("lsp/jsonrpc2")
+	info := p.TypesInfo
+	fd := findFunc(p, "", "DecodeMessage")
+	if fd == nil {
+		c.viol(rule, "anchor-lost:DecodeMessage", "", "jsonrpc2.DecodeMessage (exported) not found")
+		return
+	}
+	// optional wire fields: struct fields with an omitempty json tag, in the type decoded into
+	optional := map[*types.Var]bool{}
+	ast.Inspect(fd.Body, func(n ast.Node) bool {
+		if call, ok := n.(*ast.CallExpr); ok {
+			if se, ok := call.Fun.(*ast.SelectorExpr); ok && se.Sel.Name == "Decode" && len(call.Args) == 1 {
+				t := info.TypeOf(call.Args[0])
+				if pt, ok := t.(*types.Pointer); ok {
+					if st, ok := pt.Elem().Underlying().(*types.Struct); ok {
+						for i := 0; i < st.NumFields(); i++ {
+							if strings.Contains(st.Tag(i), "omitempty") && st.Field(i).Name() != "ID" {
+								optional[st.Field(i)] = true
+							}
+						}
+					}
+				}
+			}
+		}
+		return true
+	})
+	if len(optional) < 2 {
+		c.viol(rule, "anchor-lost:wire-struct", "", "DecodeMessage does not decode into a struct with omitempty fields")
+		return
+	}
+	n := 0
+	ast.Inspect(fd.Body, func(x ast.Node) bool {
+		is, ok := x.(*ast.IfStmt)
+		if !ok || len(is.Body.List) == 0 {
+			return true
+		}
+		ret, ok := is.Body.List[len(is.Body.List)-1].(*ast.ReturnStmt)
+		if !ok || len(ret.Results) != 2 || types.ExprString(ret.Results[1]) == "nil" {
+			return true
+		}
+		n++
+		bad := ""
+		ast.Inspect(is.Cond, func(y ast.Node) bool {
+			if se, ok := y.(*ast.SelectorExpr); ok {
+				if f := fieldOf(info, se); f != nil && optional[f] {
+					bad = f.Name()
+				}
+			}
+			return true
+		})
+		c.check(bad == "", rule, fmt.Sprintf("%s|rejection#%d|not-on-optional-field", funcKey(p, fd), n), c.pos(is.Pos()), "rejects on `"+types.ExprString(is.Cond)+"`, which the encoder never produces",
+			fmt.Sprintf("DecodeMessage rejects a frame on `%s`: %s is optional on the wire, and this package's own writer leaves it null (a successful response with a nil result is written as \"result\":null, e.g. the reply to LSP shutdown). Such a frame can then not be read back: the connection's reader fails and the pending call hangs until its context ends", types.ExprString(is.Cond), bad))
+		return true
+	})
+	c.count("decoder_rejections", n)
+	c.floor(rule, 2)
 }
